@@ -7,6 +7,7 @@ package bluegreenstyle
 
 import (
 	"fmt"
+	"github.com/openkruise/rollouts/pkg/controller/batchrelease/control"
 
 	"github.com/openkruise/rollouts/api/v1beta1"
 	batchcontext "github.com/openkruise/rollouts/pkg/controller/batchrelease/context"
@@ -143,5 +144,62 @@ func VerifC06_BlueGreenStylePlaneFailedReadIsNeverSuccess() {
 	}
 	if kind == 0 && op == 3 {
 		verifrt.Assert(err == nil && ctl.acted == 1, "C06.bluegreenstyle.plane.finalizeReachesTheWorkload")
+	}
+}
+
+// VerifC11_BlueGreenStylePlaneClassifiesWorkloadChanges: what the executor learns about the workload at the top of every round.
+// The verdicts are ranked: a workload whose controller has not caught up yet is "still reconciling"; a fully updated
+// one needs nothing; then a change of *size* is reported as such whatever else changed at the same moment (the
+// executor answers it by falling back from Ready and re-observing the size — a rollback or a template change
+// reported instead would leave the stale size and the Ready verdict in place for as long as that other condition
+// lasts); then a rollback; then a template change.
+func VerifC11_BlueGreenStylePlaneClassifiesWorkloadChanges() {
+	rc, ctl := c11Plane()
+	info := ctl.info
+	info.Generation = 5
+	info.Status.ObservedGeneration = int64(verifrt.IntRange("status.observedGeneration", 4, 5))
+	revs := []string{"rev-1", "rev-2", "rev-3"}
+	info.Status.StableRevision = revs[verifrt.IntRange("wl.stableRevision", 0, 1)]
+	info.Status.UpdateRevision = revs[verifrt.IntRange("wl.updateRevision", 0, 2)]
+	rc.newStatus.StableRevision = "rev-1"
+	rc.newStatus.UpdateRevision = []string{"", "rev-2"}[verifrt.IntRange("observed.updateRevision", 0, 1)]
+	rc.newStatus.ObservedWorkloadReplicas = int32(verifrt.IntRange("observed.replicas", -1, 1000))
+	if verifrt.Bool("release.deleted") {
+		now := metav1.Now()
+		rc.release.DeletionTimestamp = &now
+	}
+	event, got, err := rc.SyncWorkloadInformation()
+	verifrt.Assert(err == nil, "C11.bluegreenstyle.plane.sync.noError")
+	if rc.release.DeletionTimestamp != nil {
+		verifrt.Assert(event == control.WorkloadNormalState && got == nil, "C11.bluegreenstyle.plane.sync.deletedReleaseIgnoresTheWorkload")
+		return
+	}
+	verifrt.Assert(got == info, "C11.bluegreenstyle.plane.sync.reportsTheWorkloadInfo")
+	stable := info.Status.ObservedGeneration >= info.Generation
+	promoted := info.Status.Replicas == info.Status.UpdatedReplicas
+	scaled := rc.newStatus.ObservedWorkloadReplicas != -1 && info.Replicas != rc.newStatus.ObservedWorkloadReplicas
+	switch {
+	case !stable:
+		verifrt.Assert(event == control.WorkloadStillReconciling, "C11.bluegreenstyle.plane.sync.stillReconcilingFirst")
+	case promoted:
+		verifrt.Assert(event == control.WorkloadNormalState, "C11.bluegreenstyle.plane.sync.promotedNeedsNothing")
+	case scaled:
+		verifrt.Cover("scaled")
+		verifrt.Assert(event == control.WorkloadReplicasChanged, "C11.bluegreenstyle.plane.sync.sizeChangeAlwaysReportedAsSuch")
+	default:
+		verifrt.Assert(event != control.WorkloadReplicasChanged, "C11.bluegreenstyle.plane.sync.noScalingWithoutASizeChange")
+		rolledBack := rc.newStatus.UpdateRevision != "" && info.Status.UpdateRevision == info.Status.StableRevision &&
+			rc.newStatus.StableRevision == info.Status.UpdateRevision && rc.newStatus.StableRevision != rc.newStatus.UpdateRevision
+		changed := rc.newStatus.UpdateRevision != "" && info.Status.UpdateRevision != rc.newStatus.UpdateRevision
+		switch {
+		case rolledBack:
+			verifrt.Cover("rollback")
+			verifrt.Assert(event == control.WorkloadRollbackInBatch, "C11.bluegreenstyle.plane.sync.rollbackReported")
+		case changed:
+			verifrt.Cover("template-changed")
+			verifrt.Assert(event == control.WorkloadPodTemplateChanged, "C11.bluegreenstyle.plane.sync.templateChangeReported")
+		default:
+			verifrt.Assert(event == control.WorkloadNormalState, "C11.bluegreenstyle.plane.sync.otherwiseNormal")
+		}
 	}
 }
